@@ -278,11 +278,12 @@ static void do_array(const unsigned char *keys, size_t n, size_t sz, int randlen
 }
 
 static int large_sizes = 2;
-static void large_inputs(size_t sz)
+static char *prog_buf;
+static void large_one(size_t sz, size_t n, int shape, int a)
 {
-    static unsigned char keys[MAXN]; static const size_t ns[] = { 1000, 4097 }; size_t ni, i; int shape, a;
-    for (ni = 0; ni < (size_t)large_sizes; ni++) for (shape = 0; shape < 6 && nviol < 6; shape++) {
-        size_t n = ns[ni];
+    static unsigned char keys[MAXN]; size_t i;
+    if (n > MAXN) return;
+    {
         for (i = 0; i < n; i++) switch (shape) {
             case 0: keys[i] = (unsigned char)(i * 250 / n); break;                 /* sorted */
             case 1: keys[i] = (unsigned char)((n - 1 - i) * 250 / n); break;       /* reversed */
@@ -291,19 +292,25 @@ static void large_inputs(size_t sz)
             case 4: keys[i] = (unsigned char)((i < n / 2 ? i : n - 1 - i) * 250 / n); break;   /* organ pipe */
             default: keys[i] = (unsigned char)(i % 17); break;                    /* sawtooth */
         }
-        for (a = 0; a < 5 && nviol < 6; a++) {
+        {
             rnd_nchoice = 0;
-            describe_case("large", keys, n, sz, a, 0, 1);
-            { static const char *sh[] = { "sorted", "reversed", "constant", "two-valued", "organ-pipe", "sawtooth" }; snprintf(last_case, sizeof last_case, "large:%d:%zu:%zu:%s", a, sz, n, sh[shape]); }
+            /* shapes: 0 sorted, 1 reversed, 2 constant, 3 two-valued, 4 organ-pipe, 5 sawtooth */
+            snprintf(last_case, sizeof last_case, "large:%d:%zu:%zu:%d", a, sz, n, shape);
+            if (prog_buf) snprintf(prog_buf, 4000, "R %s\n", last_case);
             one_sort(keys, n, sz, a, 0, 1);
             cmp_limit = 400 + 60 * n * n;
             record();
         }
     }
 }
+static void large_inputs(size_t sz)
+{
+    static const size_t ns[] = { 1000, 4097, 72, 128, 200, 256, 1024 }; size_t ni; int shape, a;
+    /* the two long lengths, and a few lengths that are multiples of 8 / powers of two just above the small-array bound */
+    for (ni = 0; ni < 7; ni++) { if (ni == 1 && large_sizes < 2) continue; for (shape = 0; shape < 6 && nviol < 6; shape++) for (a = 0; a < 5 && nviol < 6; a++) large_one(sz, ns[ni], shape, a); }
+}
 
 static double now(void) { struct timespec ts; clock_gettime(CLOCK_MONOTONIC, &ts); return ts.tv_sec + ts.tv_nsec * 1e-9; }
-static char *prog_buf;
 #include <fcntl.h>
 #include <unistd.h>
 #include <sys/mman.h>
@@ -314,7 +321,7 @@ static int replay_case(const char *rp)
 {
     /* what:algo:size:path:chk:letters:rand  (large inputs: large:algo:size:n:shape -- re-run through large_inputs) */
     char what[16]; int a, path, chk; size_t sz; char letters[64] = "", rnd[200] = ""; unsigned char keys[64]; size_t n, i;
-    if (!strncmp(rp, "large:", 6)) { size_t s2; sscanf(rp, "large:%d:%zu", &a, &s2); large_inputs(s2); if (nviol) { printf("VIOLATED: %s\n  case %s\n", violmsg[0], viols[0]); return 1; } printf("no violation\n"); return 0; }
+    if (!strncmp(rp, "large:", 6)) { size_t s2, n2; int sh2; if (sscanf(rp, "large:%d:%zu:%zu:%d", &a, &s2, &n2, &sh2) != 4) return 4; printf("case %s\n", rp); large_one(s2, n2, sh2, a); if (nviol) { printf("VIOLATED: %s\n  case %s\n", violmsg[0], viols[0]); return 1; } printf("no violation\n"); return 0; }
     if (sscanf(rp, "%15[^:]:%d:%zu:%d:%d:%63[^:]:%199s", what, &a, &sz, &path, &chk, letters, rnd) < 5) { if (sscanf(rp, "%15[^:]:%d:%zu:%d:%d::%199s", what, &a, &sz, &path, &chk, rnd) < 5) return 4; letters[0] = 0; }
     n = strlen(letters); for (i = 0; i < n; i++) keys[i] = (unsigned char)(letters[i] - '0');
     rnd_nchoice = 0; { char *p = rnd; while (*p) { char *e; long x = strtol(p, &e, 10); if (e == p) break; rnd_choice[rnd_nchoice++] = (int)x; p = *e == ',' ? e + 1 : e; } }
